@@ -215,12 +215,53 @@ def check_concat_size(fx, rep):
     rep.check(not casts, 'R5', 'size/no-arithmetic', sb.loc(), 'the length is returned as is', 'size() adjusts the length arithmetically')
 
 
+def check_has(fx, rep, mg):
+    rep.rule('R6', 'has(m.f) is decided by the map\'s own keys only (no member()/function-registry fallback), so it agrees with `in`')
+    b = fx.body('cel_interpreter::objects::Value::resolve')
+    sites = []
+    for bi, blk in enumerate(b.blocks):
+        t = blk['term']
+        if t['k'] != 'SwitchInt':
+            continue
+        # discriminant operand defined in this block from a place ending in field `test`
+        for st in blk['stmts']:
+            if st['k'] == 'Assign' and st['rv']['k'] == 'Use' and st['rv']['op']['k'] in ('Copy', 'Move') and not st['place'].get('p') and \
+               t['discr'].get('place', {}).get('l') == st['place']['l'] and any(pr.get('k') == 'Field' and pr.get('name') == 'test' for pr in st['rv']['op'].get('place', {}).get('p', [])):
+                sites.append(bi)
+    rep.check(len(sites) == 1, 'R6', 'has/test-branch-found', b.loc(), 'one branch on SelectExpr.test', '%d branches on SelectExpr.test found in Value::resolve (anchor lost)' % len(sites))
+    if len(sites) != 1:
+        return
+    bi = sites[0]
+    t = b.blocks[bi]['term']
+    other = t['otherwise']
+    falses = [k for v, k in t['arms'] if v == 0]
+    rtrue = b.reachable_from([other])
+    rfalse = b.reachable_from(falses)
+    region = rtrue - rfalse
+    internal, lookups = [], 0
+    for rb in sorted(region):
+        tt = b.blocks[rb]['term']
+        if tt['k'] != 'Call':
+            continue
+        n = F.norm_callee(tt) or ''
+        if n == mg or (n in LOOKUPS or n in ('std::collections::HashMap::keys', 'std::collections::HashMap::contains_key', 'std::collections::HashMap::get')) and MAPTY.search(tt['arg_tys'][0]):
+            lookups += 1
+        elif n.startswith('cel_interpreter::') or n.startswith('cel_parser::'):
+            internal.append((n, F.loc_of(tt['span'])))
+    for n, where in internal:
+        rep.violation('R6', 'has/consults/%s' % n.split('::', 1)[-1], where,
+                      'has(m.f) calls %s: field selection falls back to registered functions and other non-key sources, so has({\'a\': 1}.size) is true while \'size\' in m is false' % n)
+    rep.check(lookups >= 1, 'R6', 'has/looks-at-the-keys', b.loc(), '%d lookup(s) on the map payload' % lookups, 'has(m.f) performs no lookup on the map payload')
+
+
 def run(fx, rep):
     mg = 'cel_interpreter::objects::Map::get'
+    check_has(fx, rep, mg)
     n = core(fx, rep, 'cel_interpreter', mg, {mg, mg + '::{closure#0}'})
     check_map_get(fx, rep, mg)
     check_r3(fx, rep)
     check_concat_size(fx, rep)
     rep.floor('R1', 9, '(raw: Map::get x2, member(); via Map::get: index x4, @in, contains())')
     rep.floor('R2', 6)
+    rep.floor('R6', 2)
     rep.floor('R3', 9)
